@@ -12,6 +12,9 @@ Inductive c05case :=
 (* a lock-step conversation on the real SERVER connection (rig harness/sv_c05_test.go): model agreement (Model/Server.v)
    and the server-side routing predicates of Check/SrvSpec.v (reasons 6, 7) *)
 | C05Srv (c : ServerC.svcase)
+(* the same with a SECOND connection on the same Server (outside the model): property predicates only; what connection B
+   was sent / what its handlers received *)
+| C05Srv2 (c : ServerC.svcase) (bsent brecv : list Z)
 | C05Free (ncalls : Z) (first_ids_sorted : list Z) (pairs : list (Z * Z))   (* (request token, reply token) *)
 (* write faults while other calls are in flight (TestC05Fault): mode 0 = the faulty call's Write is held by the
    transport and fails when its context ends, 1 = two such calls, 2 = the Write fails at once; k calls started after
@@ -105,6 +108,7 @@ Definition check_c05 (c : c05case) : list nat :=
   match c with
   | C05Step cc => (if agrees cc then [] else [1%nat]) ++ reasons_in [2; 3; 4; 5]%nat cc ++ (match cc with CClientWedged _ _ _ => [11%nat] | _ => [] end)
   | C05Srv sc => SrvSpec.check_c05srv sc
+  | C05Srv2 sc bs br => SrvSpec.check_c05srv2 sc bs br
   | C05Free n ids pairs =>
       (if increasing ids && (Z.of_nat (length ids) =? n) && forallb (fun i => 0 <? i) ids then [] else [2%nat]) ++
       (if forallb (fun p => snd p =? fst p + 1) pairs then [] else [9%nat])
